@@ -92,6 +92,23 @@ var regexPool = []string{
 	`undefined`, `^step ID`, `"nope"`, `.`, `zzzz_nomatch`, `is not defined`, `property .* not defined`,
 	`^input `, `shell name`, `duplicate`, `unexpected key`, `(?i)LABEL`, `job "[a-z]+"`, `\$\{\{`, `potentially untrusted`,
 	`^[a-z]`, `ID "a"`, `"os2?"`, `got unexpected`, `x$|y$`,
+	// patterns that match no message on their own (upper-case spellings); an inline flag of a
+	// NEIGHBOURING pattern must not reach them
+	`LABEL "`, `IS NOT DEFINED`, `STEP ID`,
+}
+
+// patterns whose inline flags / quoting must stay confined to the pattern itself
+var leaderPool = []string{`(?i)zzzz_nomatch`, `(?is)qqqq_nomatch`, `(?i)^nomatch$`, `\Qzzzz.nomatch`, `(?U)zzzz+_nomatch`}
+var upperPool = []string{`LABEL "`, `IS NOT DEFINED`, `STEP ID`, `UNDEFINED`, `"NOPE"`}
+
+// leaderList is an ignore list where a flag-carrying pattern that matches nothing precedes
+// patterns that match only if the flag leaked into them
+func leaderList(r *hx.Rng) []string {
+	l := []string{r.Pick(leaderPool), r.Pick(upperPool)}
+	if r.Chance(1, 2) {
+		l = append(l, r.Pick(regexPool))
+	}
+	return l
 }
 
 var globPool = []string{
@@ -594,6 +611,9 @@ func genSpec(r *hx.Rng) *spec {
 			for j := 0; j < k; j++ {
 				pe.Ignore = append(pe.Ignore, r.Pick(regexPool))
 			}
+			if r.Chance(1, 4) {
+				pe.Ignore = leaderList(r)
+			}
 			s.Paths = append(s.Paths, pe)
 		}
 	}
@@ -604,6 +624,9 @@ func genSpec(r *hx.Rng) *spec {
 		}
 		for i := 0; i < n; i++ {
 			s.CLI = append(s.CLI, r.Pick(regexPool))
+		}
+		if r.Chance(1, 5) {
+			s.CLI = leaderList(r)
 		}
 	}
 	return s
@@ -644,6 +667,7 @@ func main() {
 
 	l := mkLayout()
 	defer l.cleanup()
+	l.mkInner()
 
 	// baseline: every file alone, from the root, absolute path, no patterns
 	baseline := map[string][]diagT{}
@@ -666,6 +690,19 @@ func main() {
 	if *replay != "" {
 		b, err := os.ReadFile(*replay)
 		must(err)
+		var nf nfailure
+		if json.Unmarshal(b, &nf) == nil && nf.Nested != nil {
+			fail := l.evalNested(nf.Nested, l.nbaseline())
+			fmt.Printf("cwd=%s\nargs=%q\nouter config:\n%sinner config (%s):\n%s", l.cwd(nf.Nested.CwdKind), l.nargs(nf.Nested), cfgText(nf.Nested.Outer), innerRel, cfgText(nf.Nested.Inner))
+			if fail != nil {
+				fmt.Printf("got (exit %d): %+v\nwant (exit %d): %+v\n", fail.GotEx, fail.Got, fail.WantEx, fail.Want)
+				fmt.Println("REPLAY: property violated:", fail.What)
+				l.cleanup()
+				os.Exit(1)
+			}
+			fmt.Println("REPLAY: property holds on this input")
+			return
+		}
 		var f failure
 		must(json.Unmarshal(b, &f))
 		got, status, fail := l.evalSpec(f.Spec, baseline)
@@ -691,7 +728,7 @@ func main() {
 	must(os.MkdirAll(*out, 0o755))
 	r := hx.NewRng(*seed)
 	sum := hx.NewSummary("C15")
-	sum.Rule = "invocations of actionlint.Command.Main on a scratch repository (4 workflow files, 14 distinct messages of 10 rules): cwd in {root, parent, grandparent, 3 nested, unrelated} x spelling in {relative, ./, absolute, noisy (detours, //), no arguments} x 1-3 files x 0-3 `paths` entries from a pool of 20 globs x ignore patterns from a pool of 20 regular expressions (CLI only / config only / both) + 11 exit-status invocations (help, version, bad flags, fatal errors); non-trivial = at least one diagnostic was filtered out and at least one remained; distinct = distinct (cwd, args, config)"
+	sum.Rule = "invocations of actionlint.Command.Main on a scratch repository (4 workflow files, 14 distinct messages of 10 rules): cwd in {root, parent, grandparent, 3 nested, unrelated} x spelling in {relative, ./, absolute, noisy (detours, //), no arguments} x 1-3 files x 0-3 `paths` entries from a pool of 20 globs x ignore patterns from a pool of 20 regular expressions (CLI only / config only / both) + 11 exit-status invocations (help, version, bad flags, fatal errors) + a nested-repository stream (an inner repository with its own configuration inside the scratch repository; 2-4 files of both in any order; oracle only) + ignore lists led by a pattern with inline flags that matches nothing; non-trivial = at least one diagnostic was filtered out and at least one remained; distinct = distinct (cwd, args, config)"
 	cases, err := os.Create(filepath.Join(*out, "cases.txt"))
 	must(err)
 	defer cases.Close()
@@ -759,6 +796,29 @@ func main() {
 			sum.Samples = append(sum.Samples, map[string]interface{}{"cwd": l.cwd(s.CwdKind), "args": args, "config": s.configText(), "remaining": len(got), "exit": status})
 		}
 	}
+	// nested repositories (oracle only)
+	nbase := l.nbaseline()
+	rn := hx.NewRng(*seed + 7777)
+	for i := 0; i < *n/3+20; i++ {
+		ns := genNested(rn)
+		sum.Evaluations++
+		sum.Dist["nested_runs"]++
+		mixed, firstOuter := false, !ns.Files[0].Inner
+		for _, f := range ns.Files {
+			if f.Inner == firstOuter {
+				mixed = true
+			}
+		}
+		if mixed && firstOuter {
+			sum.Dist["nested:outer-file-first"]++
+		} else if mixed {
+			sum.Dist["nested:inner-file-first"]++
+		}
+		if nf := l.evalNested(ns, nbase); nf != nil {
+			sum.OracleFails = append(sum.OracleFails, nf)
+		}
+	}
+	l.nwriteCfg(&nspec{})
 	sum.Nontrivial = len(nontrivial)
 	sum.Extra["distinct_invocations"] = len(distinct)
 	sum.Extra["messages"] = msgs
